@@ -1,6 +1,6 @@
 import ESV.Cli.Lemmas
 /-
-Acceptance: every document with the documented structure whose position coordinates are strings is read by
+Acceptance: every document with the documented structure (position coordinates integers or strings) is read by
 check_settings + read_routines without an exception.
 -/
 namespace ESV.Cli
@@ -248,9 +248,13 @@ theorem fixedFromStr_total (s : Str) (h : isNumberLit s = true) : ∃ v, fixedFr
 
 /-! ### acceptance -/
 
-theorem coordOf_total (x : J) (h : coordShapeG false x = true) : ∃ p, coordOf x = .ok p := by
+theorem coordOf_total (ints : Bool) (x : J) (h : coordShapeG ints x = true) : ∃ p, coordOf x = .ok p := by
   cases x with
   | str s => exact cliParsePos_total s.toList h
+  | int i =>
+    have := cliParsePos_posFinal i 0
+    simp only [posFinal, show ¬ ((0 : Int) > 1) by omega, ↓reduceIte, List.append_nil] at this
+    exact ⟨_, this⟩
   | _ => simp [coordShapeG] at h
 
 theorem langOf_total (l : List (String × J)) (h : langShape l = true) : ∃ r, langOf l = .ok r := by
@@ -264,7 +268,7 @@ theorem langOf_total (l : List (String × J)) (h : langShape l = true) : ∃ r, 
     | str s => exact ⟨(k, s) :: r, by simp [langOf, hr]⟩
     | _ => simp [isStr] at h
 
-theorem readParam_total (p : J) (h : paramShapeG false p = true) : ∃ q, readParam p = .ok q := by
+theorem readParam_total (ints : Bool) (p : J) (h : paramShapeG ints p = true) : ∃ q, readParam p = .ok q := by
   cases p with
   | int i => exact ⟨.int i, rfl⟩
   | obj kv =>
@@ -294,12 +298,12 @@ theorem readParam_total (p : J) (h : paramShapeG false p = true) : ∃ q, readPa
       | none => simp [ex] at hx
       | some xj =>
         simp only [ex] at hx
-        obtain ⟨⟨xr, xo⟩, hxp⟩ := coordOf_total xj hx
+        obtain ⟨⟨xr, xo⟩, hxp⟩ := coordOf_total ints xj hx
         cases ey : look m "y" with
         | none => simp [ey] at hy
         | some yj =>
           simp only [ey] at hy
-          obtain ⟨⟨yr, yo⟩, hyp⟩ := coordOf_total yj hy
+          obtain ⟨⟨yr, yo⟩, hyp⟩ := coordOf_total ints yj hy
           cases en : look m "name" with
           | none => simp [en] at hn
           | some nj =>
@@ -309,16 +313,16 @@ theorem readParam_total (p : J) (h : paramShapeG false p = true) : ∃ q, readPa
     · simp at h
   | _ => simp [paramShapeG] at h
 
-theorem readParams_total (l : List J) (h : paramsShapeG false l = true) : ∃ r, readParams l = .ok r := by
+theorem readParams_total (ints : Bool) (l : List J) (h : paramsShapeG ints l = true) : ∃ r, readParams l = .ok r := by
   induction l with
   | nil => exact ⟨[], rfl⟩
   | cons p ps ih =>
     simp only [paramsShapeG, Bool.and_eq_true] at h
-    obtain ⟨q, hq⟩ := readParam_total p h.1
+    obtain ⟨q, hq⟩ := readParam_total ints p h.1
     obtain ⟨r, hr⟩ := ih h.2
     exact ⟨q :: r, by simp [readParams, hq, hr, consR]⟩
 
-theorem readOp_total (n : Nat) (o : J) (h : opShapeG false o = true) : ∃ r, readOp n o = .ok r ∧ r.offset = n := by
+theorem readOp_total (ints : Bool) (n : Nat) (o : J) (h : opShapeG ints o = true) : ∃ r, readOp n o = .ok r ∧ r.offset = n := by
   cases o with
   | obj kv =>
     simp only [opShapeG, Bool.and_eq_true] at h
@@ -330,7 +334,7 @@ theorem readOp_total (n : Nat) (o : J) (h : opShapeG false o = true) : ∃ r, re
       cases ps with
       | arr l =>
         simp only [ep] at h2
-        obtain ⟨r, hr⟩ := readParams_total l h2
+        obtain ⟨r, hr⟩ := readParams_total ints l h2
         cases eo : look kv "opcode" with
         | none => simp [eo] at h1
         | some oc =>
@@ -340,19 +344,19 @@ theorem readOp_total (n : Nat) (o : J) (h : opShapeG false o = true) : ∃ r, re
       | _ => simp [ep] at h2
   | _ => simp [opShapeG] at h
 
-theorem readOpsFrom_total (n : Nat) (l : List J) (h : opsShapeG false l = true) : ∃ r, readOpsFrom n l = .ok r := by
+theorem readOpsFrom_total (ints : Bool) (n : Nat) (l : List J) (h : opsShapeG ints l = true) : ∃ r, readOpsFrom n l = .ok r := by
   induction l generalizing n with
   | nil => exact ⟨[], rfl⟩
   | cons o os ih =>
     simp only [opsShapeG, Bool.and_eq_true] at h
-    obtain ⟨q, hq, _⟩ := readOp_total (n + 1) o h.1
+    obtain ⟨q, hq, _⟩ := readOp_total ints (n + 1) o h.1
     obtain ⟨r, hr⟩ := ih (n + 1) h.2
     exact ⟨q :: r, by simp [readOpsFrom, hq, hr, consR]⟩
 
 theorem targetOf_total (k : RoutineKind) (t : J) (h : targetShape t = true) : ∃ i, targetOf k t = .ok i := by
   cases t <;> simp [targetShape] at h <;> exact ⟨_, rfl⟩
 
-theorem readRoutine_total (n : Nat) (r : J) (h : routineShapeG false r = true) : ∃ x, readRoutine n r = .ok x := by
+theorem readRoutine_total (ints : Bool) (n idx : Nat) (r : J) (h : routineShapeG ints r = true) : ∃ x, readRoutine n idx r = .ok x := by
   cases r with
   | obj kv =>
     simp only [routineShapeG, Bool.and_eq_true] at h
@@ -364,7 +368,7 @@ theorem readRoutine_total (n : Nat) (r : J) (h : routineShapeG false r = true) :
       cases ops with
       | arr l =>
         simp only [eo] at h1
-        obtain ⟨rops, hrops⟩ := readOpsFrom_total n l h1
+        obtain ⟨rops, hrops⟩ := readOpsFrom_total ints n l h1
         have hw : ∀ info coro, withOps info coro n (.arr l) = .ok ⟨info, coro, rops⟩ := by
           intro info coro; simp [withOps, readOpsJ, hrops]
         simp only
@@ -407,14 +411,14 @@ theorem readRoutine_total (n : Nat) (r : J) (h : routineShapeG false r = true) :
       | _ => simp [eo] at h1
   | _ => simp [routineShapeG] at h
 
-theorem readRoutinesFrom_total (n : Nat) (l : List J) (h : routinesShapeG false l = true) :
-    ∃ rs, readRoutinesFrom n l = .ok rs := by
-  induction l generalizing n with
+theorem readRoutinesFrom_total (ints : Bool) (n idx : Nat) (l : List J) (h : routinesShapeG ints l = true) :
+    ∃ rs, readRoutinesFrom n idx l = .ok rs := by
+  induction l generalizing n idx with
   | nil => exact ⟨[], rfl⟩
   | cons r rs ih =>
     simp only [routinesShapeG, Bool.and_eq_true] at h
-    obtain ⟨x, hx⟩ := readRoutine_total n r h.1
-    obtain ⟨xs, hxs⟩ := ih (n + x.ops.length) h.2
+    obtain ⟨x, hx⟩ := readRoutine_total ints n idx r h.1
+    obtain ⟨xs, hxs⟩ := ih (n + x.ops.length) (idx + 1) h.2
     exact ⟨x :: xs, by simp [readRoutinesFrom, hx, hxs]⟩
 
 theorem checkSettings_of_look (kv : List (String × J)) (s : J) (hl : look kv "settings" = some s)
@@ -426,8 +430,8 @@ theorem checkSettings_of_look (kv : List (String × J)) (s : J) (hl : look kv "s
   simp only [look, hl]
   exact this
 
-/-- **every documented document whose position coordinates are strings is read without an exception** -/
-theorem readRaw_total (doc : J) (h : DocShapeG false doc = true) : ∃ rs, readRaw doc = .ok rs := by
+/-- **every documented document is read without an exception** -/
+theorem readRaw_total (ints : Bool) (doc : J) (h : DocShapeG ints doc = true) : ∃ rs, readRaw doc = .ok rs := by
   cases doc with
   | obj kv =>
     simp only [DocShapeG, Bool.and_eq_true] at h
@@ -444,7 +448,7 @@ theorem readRaw_total (doc : J) (h : DocShapeG false doc = true) : ∃ rs, readR
         cases r with
         | arr l =>
           simp only [er] at h2
-          exact readRoutinesFrom_total 0 l h2
+          exact readRoutinesFrom_total ints 0 0 l h2
         | _ => simp [er] at h2
   | _ => simp [DocShapeG] at h
 
